@@ -61,6 +61,10 @@ func flayouts(thorough bool) []flayout {
 		{f("x/y/z/w", 5), f("x/y/q", 6), f("x/p", 7), f("r", 8)},
 		{f("é/ü", 16384), f("é/#", 1)},
 		{f("a", 100), pad(".pad/1", 16284), f("d/b", 40000), pad("d/.pad", 9000), f("d/c", 1)},
+		// padding files inside directories, before / between / after the directory's real files
+		{f("data/1.bin", 1000), pad("data2/.pad/15384", 15384), f("data2/2.bin", 16384), f("data2/3.bin", 5)},
+		{pad("d/.pad/1", 100), f("d/x", 16284), pad("d/e/.pad/2", 7), f("d/e/y", 9)},
+		{f("d/x", 10), pad("d/x.pad", 16374), f("d/y", 10), pad("z", 6), f("zz", 1)},
 	}
 	for i, m := range multi {
 		out = append(out, flayout{fmt.Sprintf("fm%d", i), m})
